@@ -5,6 +5,7 @@ import LlirModel.Drv.EnumOps
 import LlirModel.Drv.TypeOps
 import LlirModel.Drv.TypingOps
 import LlirModel.Drv.NumOps
+import LlirModel.Drv.MdOps
 open Llir Llir.Drv
 
 def dispatch (op : String) (args : List String) : String :=
@@ -27,6 +28,9 @@ def dispatch (op : String) (args : List String) : String :=
   | some r => r
   | none =>
   match numOps op args with
+  | some r => r
+  | none =>
+  match mdOps op args with
   | some r => r
   | none => "unknown-op"
 
